@@ -32,6 +32,11 @@ partial def parseV : List Char → Option (V × List Char)
     match (String.ofList ds).toInt? with
     | some v => some (.int v, (rest.dropWhile (· != ';')).drop 1)
     | none => none
+  | 'f' :: rest =>
+    let ds := rest.takeWhile (· != ';')
+    match (String.ofList ds).toNat? with
+    | some v => some (.float (Float.ofBits (UInt64.ofNat v)), (rest.dropWhile (· != ';')).drop 1)
+    | none => none
   | 'T' :: rest => some (.bool true, rest)
   | 'F' :: rest => some (.bool false, rest)
   | 'N' :: rest => some (.opt none, rest)
@@ -73,6 +78,7 @@ partial def showV : V → String
   | .int i => s!"i{i};"
   | .bool b => if b then "T" else "F"
   | .str s => "s" ++ showCps s ++ ";"
+  | .float f => s!"f{f.toBits.toNat};"
   | .tuple l => "(" ++ String.join (l.map showV) ++ ")"
   | .seq l => "[" ++ String.join (l.map showV) ++ "]"
   | .stack l => "{" ++ String.join (l.map showV) ++ "}"
